@@ -293,8 +293,12 @@ pub fn gen_route(t: &mut Tape) -> Scenario {
         let s = open[i];
         match g.t.draw(9) {
             0 | 1 => open[i] = g.un(s, UnOp::Shuffle),
-            2 | 3 => {
+            2 => {
                 let op = g.gen_gb();
+                open[i] = g.un(s, op);
+            }
+            3 => {
+                let op = if g.t.draw(3) == 2 { UnOp::Extra(ExtraOp::KeyedChain(PredFn::True, FlatFn::Copies(1))) } else { g.gen_gb() };
                 open[i] = g.un(s, op);
             }
             4 => {
